@@ -242,6 +242,7 @@ const Prelude = `
 (declare-fun str.sub (Str Int Int) Str)
 (assert (forall ((a Str) (l Int) (h Int)) (! (=> (and (<= 0 l) (<= l h)) (= (slen (str.sub a l h)) (- h l))) :pattern ((str.sub a l h)))))
 (assert (forall ((a Str) (l Int) (h Int) (i Int)) (! (=> (and (<= 0 i) (< i (- h l))) (= (sat (str.sub a l h) i) (sat a (+ l i)))) :pattern ((sat (str.sub a l h) i)))))
+(assert (forall ((a Str) (h Int)) (! (=> (= h (slen a)) (= (str.sub a 0 h) a)) :pattern ((str.sub a 0 h)))))
 (declare-fun str.ofbytes ((Array Int Int) Int Int) Str)
 (assert (forall ((a (Array Int Int)) (o Int) (n Int)) (! (=> (<= 0 n) (= (slen (str.ofbytes a o n)) n)) :pattern ((str.ofbytes a o n)))))
 (assert (forall ((a (Array Int Int)) (o Int) (n Int) (i Int)) (! (=> (and (<= 0 i) (< i n)) (= (sat (str.ofbytes a o n) i) (select a (+ o i)))) :pattern ((sat (str.ofbytes a o n) i)))))
@@ -535,11 +536,15 @@ func groundInstances(a string, terms []string, budget *int) []string {
 			return nil
 		}
 		vp := splitSexp(vars[0])
-		if len(vp) != 2 || vp[1] != "Int" {
+		if len(vp) != 2 || (vp[1] != "Int" && vp[1] != "Iface") {
 			return nil
 		}
 		var out []string
 		for _, t := range terms {
+			isIface := strings.HasPrefix(t, "(mk-iface ") || (strings.HasPrefix(t, "|sk!") && strings.Contains(t, "!Iface!"))
+			if (vp[1] == "Iface") != isIface {
+				continue
+			}
 			if *budget <= 0 {
 				break
 			}
